@@ -182,15 +182,16 @@ class MObj(HObj):
     dom: z3 Array Int->Bool, cols: field name -> (z3 Array Int->sort, kind).
     `elem_cls`/`elem_model` describe the record objects."""
 
-    def __init__(self, dom, cols, elem_cls, elem_model, default_factory=None):
+    def __init__(self, dom, cols, elem_cls, elem_model, default_factory=None, event_cols=()):
         self.dom = dom
         self.cols = cols
         self.elem_cls = elem_cls
         self.elem_model = elem_model
         self.default_factory = default_factory
+        self.event_cols = tuple(event_cols)
 
     def clone(self):
-        return MObj(self.dom, dict(self.cols), self.elem_cls, self.elem_model, self.default_factory)
+        return MObj(self.dom, dict(self.cols), self.elem_cls, self.elem_model, self.default_factory, self.event_cols)
 
 
 class ElemRef:
